@@ -310,7 +310,10 @@ func genCopyWithEnv(res *harness.R, r *rand.Rand) part {
 		}
 		known = append(known, n)
 	}
-	below := r.Intn(4) == 0 // the copy sits below the name "sub" instead of at the root
+	// the copy sits below the name "sub" instead of at the root in half of the
+	// cases: a nested object is read in the enumeration order of its own
+	// dictionary whatever the target type is
+	below := r.Intn(2) == 0
 	// changes of the copy
 	delta := model.Dict()
 	overridden := 0
@@ -343,7 +346,15 @@ func genCopyWithEnv(res *harness.R, r *rand.Rand) part {
 		if r.Intn(4) == 0 {
 			txt = "n-${" + t + "}"
 		}
-		delta.Set(fmt.Sprintf("n%d", i), model.P(txt))
+		if below && r.Intn(2) == 0 {
+			// added next to the copied settings (names are looked up from the root)
+			if delta.D["sub"] == nil {
+				delta.Set("sub", model.Dict())
+			}
+			delta.D["sub"].Set(fmt.Sprintf("n%d", i), model.P(txt))
+		} else {
+			delta.Set(fmt.Sprintf("n%d", i), model.P(txt))
+		}
 	}
 	res.Ev("copy_with_env_cases", 1)
 	res.SetAdd("copy_with_env_shape", fmt.Sprintf("prims=%d refs=%d nested=%v below-name=%v overridden=%d removed=%d added=%d", len(primNames), len(refNames), orig.D["o"] != nil, below, overridden, len(removed), adds))
